@@ -7,7 +7,7 @@ mod conform;
 mod cx;
 mod model;
 
-use std::collections::BTreeSet;
+use std::collections::BTreeMap;
 use std::sync::{Arc, Mutex};
 use std::time::{Duration, Instant};
 
@@ -83,7 +83,7 @@ struct CfgResult {
     sometimes_missing: Vec<String>,
 }
 
-fn check_cfg(name: &'static str, cfg: Cfg, cap: Duration, visit: Option<Arc<Mutex<BTreeSet<conform::Projection>>>>) -> CfgResult {
+fn check_cfg(name: &'static str, cfg: Cfg, cap: Duration, visit: Option<Arc<Mutex<BTreeMap<conform::Projection, (S, &'static str)>>>>) -> CfgResult {
     let t0 = Instant::now();
     let m = Proto(cfg.clone());
     let mut b = m.checker().threads(vcommon::jobs()).timeout(cap);
@@ -91,8 +91,10 @@ fn check_cfg(name: &'static str, cfg: Cfg, cap: Duration, visit: Option<Arc<Mute
         let cfg2 = cfg.clone();
         b = b.visitor(move |path: stateright::Path<S, Act>| {
             let acts: Vec<(S, Option<Act>)> = path.into_vec();
+            let last = acts.last().map(|x| x.0.clone());
             for p in conform::project(&cfg2, &acts) {
-                set.lock().unwrap().insert(p);
+                // the first trace that shows a projection is kept as its witness
+                set.lock().unwrap().entry(p).or_insert_with(|| (last.clone().unwrap(), name));
             }
         });
     }
@@ -139,7 +141,7 @@ fn main() {
     let catchup_anywhere = conform::probe_catchup_appends_anywhere();
     let cfgs: Vec<(&'static str, Cfg)> = configs(thorough).into_iter().map(|(n, mut c)| { c.catchup_appends_anywhere = catchup_anywhere; (n, c) }).collect();
     let t_start = Instant::now();
-    let projections: Arc<Mutex<BTreeSet<conform::Projection>>> = Default::default();
+    let projections: Arc<Mutex<BTreeMap<conform::Projection, (S, &'static str)>>> = Default::default();
     let mut rows = Vec::new();
     let (mut states, mut transitions) = (0usize, 0usize);
     let mut exhaustive = true;
@@ -176,8 +178,8 @@ fn main() {
     }
     // conformance: replay the per-node projections of the explored traces (and of every counterexample)
     // against the real replica-side actors
-    let mut projs: Vec<conform::Projection> = projections.lock().unwrap().iter().cloned().collect();
-    projs.sort_by_key(|p| (p.events.len(), p.clone()));
+    let mut projs: Vec<(conform::Projection, conform::Witness)> = projections.lock().unwrap().iter().map(|(p, (last, cfgname))| (p.clone(), conform::Witness { cfg: cfg_by_name(cfgname, thorough), last: last.clone() })).collect();
+    projs.sort_by_key(|(p, _)| (p.events.len(), p.clone()));
     let max_traces = if thorough { 4000 } else { 400 };
     let conf = conform::run(&ctx, &prop, &projs, max_traces);
     // counterexamples: a model violation is reported only if its replica-side projection is confirmed by the
